@@ -65,6 +65,23 @@ CHECKS["C16"] = {
     "note": "Bounds as C04. Capability identity is observed through ClientHook.Brand.",
 }
 
+CHECKS["C17"] = {
+    "engine": "tlc",
+    "level": "model_checking",
+    "design_ref": "DESIGN.md section 4 C17",
+    "technique": "TLA+ transcription of the documented equality (ValGen.ValEq) evaluated by TLC on enumerated value trees and their one-edit neighbours; spec->code: the real Equal must return TLC's verdict on values built in different layouts",
+    "text": "TLC enumerates value trees to depth 2 (quick) / 3 (thorough) and, for each, the neighbours that differ in exactly one bit / element / trailing word / extra null or zero field / list-kind upgrade, computes the three-valued verdict (yes / no / either where the documentation is silent: bit list vs struct list) and checks reflexivity and symmetry of ValEq itself. The driver builds both sides in 4 arena x build-order layouts and requires Equal(a,b) = Equal(b,a) = verdict, Equal(a,a), Equal(a, deep copy), Equal(a, re-encoding).",
+    "note": "Capabilities are compared through shared instrumented clients (same table index = same capability). Values come from the builder, so C17 assumes C04/C05.",
+}
+CHECKS["C18"] = {
+    "engine": "tlc",
+    "level": "model_checking",
+    "design_ref": "DESIGN.md section 4 C18",
+    "technique": "TLA+ definition of the canonical encoding (ValGen.Canon) cross-checked inside TLC against the decoder spec (Value(Canon(v)) ValEq v, WellFormed, fixed point, layout independence); spec->code: Canonicalize output must equal Canon(v) byte for byte for every layout",
+    "text": "For every generated struct value (including padded / versioned variants with trailing zero words and null pointers, composite lists with and without pointers, data-only and zero-sized elements, nested lists) built in 4 layouts, the bytes returned by Canonicalize must be exactly the word sequence TLC computes from the spec; canonicalising the result must return it unchanged; values containing a capability must be rejected.",
+    "note": "List-kind upgrades are not claimed to canonicalise identically. Source padding is zero because values come from the builder.",
+}
+
 NOT_APPLICABLE = {
     "C%02d" % i: "check not built yet in this session (planned, see DESIGN.md section 9); not claimed until its TLA+ spec and conformance harness exist" for i in range(1, 21)
 }
